@@ -18,6 +18,19 @@ class Crash(Exception):
     """An unexpected (non-ResolverError) exception raised by a resolver."""
 
 
+# the library's own control flow uses some built-in exception classes (IndexError to end a loop,
+# KeyError / AttributeError in look-ups, ...): a resolver raising one of them is still unexpected
+CRASH_CLASSES = [Crash] + [type("Crash" + b.__name__, (Crash, b), {})
+                           for b in (IndexError, IndexError, IndexError, KeyError, KeyError, AttributeError, TypeError, ValueError, LookupError,
+                                     AssertionError, RuntimeError)]
+
+
+def crash(message):
+    from ..core import h64
+
+    return CRASH_CLASSES[int(h64(message)[:6], 16) % len(CRASH_CLASSES)](message)
+
+
 def salt_of(kwargs):
     """Canonical text of coerced arguments (python names / internal enum values)."""
     def c(v):
@@ -248,9 +261,15 @@ class Binding(object):
         self.calls.append((obj.type, f.name, obj.oid, dict(kwargs)))
         out = self.world.outcome(obj.type, f.name, obj.oid, salt)
         if out[0] == "error":
+            from ..core import h64
+
+            if int(h64(out[1])[:4], 16) % 4 == 0:
+                # a resolver relaying an upstream error may have set a path of its own: the response
+                # still has to report the path of the field that failed here
+                raise ResolverError(out[1], path=["upstream", 3, "field"], extensions=out[2])
             raise ResolverError(out[1], extensions=out[2])
         if out[0] == "crash":
-            raise Crash(out[1])
+            raise crash(out[1])
         return self.to_python(out[1])
 
     def resolver_for(self, typename, fieldname):
